@@ -326,7 +326,8 @@ fn exec(live: &mut Live, op: &Value, dict: &Dict) -> Value {
                     res_unit(s.set_len(n))
                 }
                 "flush" => res_unit(s.flush()),
-                "len" => ok(json!(s.len())),
+                // (is_empty() is the same statement as len() == 0: a disagreement is logged as a length no stream has)
+                "len" => ok(json!(if s.is_empty() == (s.len() == 0) { s.len() } else { 0x7FFF_FFF0 })),
                 other => json!({"k": "err", "e": "UnknownOp", "msg": other}),
             }
         }
